@@ -40,6 +40,28 @@ Control flow with exits (genpm; search loops of the matchers, C08/C09)
   helpers      `<fn>_loop<k>` / `<fn>_while<k>` : Nat → state → Res (state [× Option ret]) — the `Option` says whether the
                *function* returned from inside the loop; a `loop` without `break` returns the value itself;
                `<fn>_iter<k>` : List item → [Nat →] state → Res (state × iterator state [× Option ret]).
+Approximate matchers (genukk; Ukkonen, Myers single-word and block-based, C09/C10)
+  containers   `v[i][j] = e` / `op=` on a vector of vectors; `v.clear()`, `v.extend(repeat(x).take(n))`, `v.extend(a..b)` /
+               `(a..=b)`, `v.resize(n, x)` (`Rs.resize`), `v.truncate(n)`, `v.push(x)` where `v` is a variable, `self.f` or an
+               element `w[i]` of a vector of vectors (`[Vec<usize>; 2]` is a list of two lists: read row, write it back)
+  closures     a closure field as an abstract function: `let cost = &self.ukkonen.cost;` … `(cost)(a, b)` (key
+               `"self.ukkonen.cost"` in `abstract_fns`); the projection closure `|s| s.f` inside `v.last().map(|s| s.f)
+               .unwrap_or(d)` and `v.get(i).map(|s| s.f)`
+  word types   `word_types={"T": "w"}`: a generic unsigned word type whose width is a *parameter* `(w : Nat)` of every generated
+               function (`Rs.wrappingAdd w`, `Rs.not w`, `Rs.shl w`, `Rs.maxVal w`); `T::zero()`, `T::one()`, `T::max_value()`;
+               `type_paths={"T::DistType": "DistType"}`; literals of a word type: 0 and 1 only; `word_size::<T>()` = `w`;
+               `$ident` tokens (macro variables in pinned headers of `impl_myers!`)
+  structs      `structs={"State": [("pv","T"), ..]}`: a parameter `state: &mut State` is passed field by field and all its fields
+               are returned; `self.state.pv` paths as before; `Vec<State>` is a list of tuples, `v[i].dist` a projection;
+               calls of other translated functions with struct arguments (`calls={"self.myers.step": dict(args=["&mut State",
+               ..], self_args=[..], extra=["w","wd"], self_outs=[..])}`): the argument may be a struct parameter, a `self`
+               field, a local struct value or an element `v[i]` (read, call, written back); `for (x, y) in
+               xs.iter_mut().zip(ys)` (fold that rebuilds the prefix of `xs`); `within="impl … for Matches<…>"`
+  signed       with `signed_arith=True`: `cond as i8` (`Rs.ofBool`), checked `+` / `-` on signed bit patterns (`Rs.addI`,
+               `Rs.subI`), sign-extending casts (`Rs.sext`), comparisons through `Rs.toInt`; `x.to_usize().unwrap()`,
+               `D::from_usize(x).unwrap()` (`Rs.cvt`), `saturating_add`; semantics: `RbV/Basic/RsSemWord.lean`
+  control      `if let Some(x) = e {..} [else {..}]` as a statement (= `match`); a unit function ending in `if .. else ..`;
+               `shadow_fresh=True`: an inner `let` that shadows an outer variable gets a primed Lean name
 Output style: the monad `RbV.Rs.Res` (`ok | panic | fuel`, RbV/Basic/RsSem.lean), `do` blocks of `let x ← …` / `let x := …`
 with Rust's mutation expressed by shadowing, `for` loops as `List.foldlM` of a named body function over `List.range'` /
 the slice / `zipIdx`, `while` loops as named recursive helpers on fuel.  Loop helpers are named `<fn>_for<k>`,
@@ -81,6 +103,17 @@ class TInt(Ty):
 
     def __repr__(self):
         return self.name
+
+
+class TWord(TInt):
+    """(genukk) an unsigned machine word whose width is a parameter of the translated function: the generic `T: BitVec`
+    of the Myers matchers (`Nat` below `2^w`, `w` a Lean variable), `T::DistType`"""
+
+    def __init__(self, name, wvar):
+        self.name, self.w, self.signed = name, wvar, False
+
+    def __eq__(self, o):
+        return isinstance(o, TWord) and o.w == self.w       # `D`, `T::DistType`, `$DistType` name the same type
 
 
 class TBool(Ty):
@@ -131,6 +164,18 @@ class TTuple(Ty):
 
     def __repr__(self):
         return "(%s)" % ", ".join(map(repr, self.items))
+
+
+class TStruct(TTuple):
+    """(genukk) a struct of the spec (`structs`): a tuple in field order that remembers the field names"""
+
+    def __init__(self, name, fields, items):
+        self.name, self.fields, self.items = name, fields, items
+
+    def proj(self, field):
+        k = self.fields.index(field)
+        n = len(self.fields)
+        return "".join([".2"] * k) + (".1" if k < n - 1 else "")
 
 
 class TAbs(Ty):
@@ -195,7 +240,7 @@ TOKEN_RX = re.compile(r"""
   | (?P<byte>b'(?:\\.|[^\\'])')
   | (?P<str>"(?:\\.|[^"\\])*")
   | (?P<num>(?:0x[0-9a-fA-F_]+|0b[01_]+|0o[0-7_]+|[0-9][0-9_]*)(?:(?:u8|u16|u32|u64|usize|i8|i16|i32|i64|isize))?)
-  | (?P<id>[A-Za-z_][A-Za-z0-9_]*)
+  | (?P<id>\$?[A-Za-z_][A-Za-z0-9_]*)
   | (?P<life>'[A-Za-z_][A-Za-z0-9_]*)
   | (?P<op><<=|>>=|\.\.=|\.\.|::|->|=>|==|!=|<=|>=|&&|\|\||\+=|-=|\*=|/=|%=|&=|\|=|\^=|<<|>>|[-+*/%&|^!<>=.,;:(){}\[\]\#?@])
 """, re.X)
@@ -390,6 +435,24 @@ class Parser:
                 init = self.expr()
             self.expect(";")
             return N("let", x.pos, pat=pat, ty=ty, init=init)
+        if x.kind == "id" and x.text == "if" and self.at("let", 1) and self.at("Some", 2) and self.at("(", 3):
+            # (genukk) `if let Some(v) = e { .. } [else { .. }]` = `match e { Some(v) => { .. }, None => { .. } }`
+            for _ in range(4):
+                self.next()
+            v = self.ident()
+            self.expect(")")
+            self.expect("=")
+            scrut = self.expr(no_struct=True)
+            th = self.block()
+            el = N("block", x.pos, stmts=[], tail=None)
+            if self.at("else"):
+                self.next()
+                if self.at("if"):
+                    raise Unsupported("`if let … else if`", x.pos)
+                el = self.block()
+            if self.at(";"):
+                self.next()
+            return N("match", x.pos, scrut=scrut, arms=[(("some", v.text), th, x.pos), (("none", None), el, x.pos)])
         if x.kind == "id" and x.text == "if":
             e = self.if_()
             if self.at(";"):
@@ -570,6 +633,17 @@ class Parser:
         self.expect("(")
         a = []
         while not self.at(")"):
+            if self.at("|") and self.peek(1).kind == "id" and self.at("|", 2) and self.peek(3).kind == "id" \
+                    and self.peek(3).text == self.peek(1).text and self.at(".", 4) and self.peek(5).kind == "id" \
+                    and (self.at(")", 6) or self.at(",", 6)):
+                # (genukk) the field-projection closure `|s| s.dist`
+                p0 = self.peek()
+                for _ in range(5):
+                    self.next()
+                a.append(N("projclosure", p0.pos, field=self.next().text))
+                if self.at(","):
+                    self.next()
+                continue
             if self.at("|") or self.at("||") or self.at("move"):
                 raise Unsupported("closure argument", self.peek().pos)
             a.append(self.expr())
@@ -605,7 +679,14 @@ class Parser:
             elif self.at("?"):
                 raise Unsupported("`?` operator", x.pos)
             elif self.at("("):
-                raise Unsupported("call of a computed function value", x.pos)
+                # (genukk) `(cost)(a, b)`: call of a closure held in a local / a field (declared abstract in the spec)
+                inner = e.e if e.kind == "paren" else None
+                if inner is not None and inner.kind == "var":
+                    e = N("call", x.pos, path=[inner.name], args=self.args())
+                elif inner is not None and inner.kind == "field" and self_path(inner) is not None:
+                    e = N("call", x.pos, path=[self_path(inner)], args=self.args())
+                else:
+                    raise Unsupported("call of a computed function value", x.pos)
             else:
                 return e
 
@@ -672,6 +753,13 @@ class Parser:
             path = [x.text]
             while self.at("::"):
                 self.next()
+                if self.at("<") and path == ["word_size"] and self.peek(1).kind == "id" and self.at(">", 2) and self.at("(", 3):
+                    # (genukk) `word_size::<T>()`: the bit width of the word type
+                    self.next()
+                    targ = self.ident().text
+                    self.next()
+                    self.args()
+                    return N("wordsize", x.pos, targ=targ)
                 if self.at("<"):
                     raise Unsupported("turbofish / generic arguments in a path", self.peek().pos)
                 path.append(self.ident().text)
@@ -844,10 +932,34 @@ class FnTranslator:
         self.scopes = []            # list of dict rust name -> Var
         self.used_abs = []          # abstract fns used (parameters of the generated function)
         self.loop_depth = 0
+        self.word_types = dict(unit.get("word_types", {}))      # (genukk) rust type name -> lean width variable
+        self.word_types.update(fspec.get("word_types", {}))
+        self.type_paths = dict(unit.get("type_paths", {}))      # (genukk) "T::DistType" -> type name of the spec
+        self.type_paths.update(fspec.get("type_paths", {}))
+        self.structs = dict(unit.get("structs", {}))            # (genukk) struct name -> [(field, type)]
+        self.structs.update(fspec.get("structs", {}))
+        self.signed_arith = bool(unit.get("signed_arith") or fspec.get("signed_arith"))
+        global STRUCT_ROOTS
+        STRUCT_ROOTS = set(nm for nm, ty in fspec.get("params", []) if self.struct_of(ty) is not None)
+        self.fn_aliases = {}        # (genukk) local name -> key of an abstract function (`let cost = &self.ukkonen.cost;`)
 
     # ---------------------------------------------------------------- helpers
     def err(self, msg, node=None):
         raise Unsupported(msg, node.pos if node is not None else None)
+
+    def struct_of(self, ty_text):
+        """(genukk) name of the spec's struct a parameter type `&mut State` / `&Myers` / `State` denotes, else None"""
+        t = ty_text.replace("&", " ").split()
+        t = [x for x in t if x != "mut"]
+        return t[0] if len(t) == 1 and t[0] in self.structs else None
+
+    def width_params(self):
+        """(genukk) the width variables of the unit's word types, leading parameters of every generated function"""
+        out = []
+        for w in list(self.unit.get("word_types", {}).values()) + list(self.spec.get("word_types", {}).values()):
+            if w not in out:
+                out.append(w)
+        return out
 
     def ty_of_text(self, s):
         toks = tokenize(s, 0)
@@ -878,6 +990,10 @@ class FnTranslator:
             return TSeq(TTuple([TInt("usize"), self.ty(t.args[0])]))
         if nm in ("Enumerate", "Iter") and len(t.args) == 1:
             return TIter(self.ty(t.args[0]), nm == "Enumerate")
+        if nm in self.word_types and not t.args:
+            return TWord(nm, self.word_types[nm])
+        if nm in self.structs and not t.args:
+            return TStruct(nm, [f for f, _ in self.structs[nm]], [self.ty_of_text(ft) for _, ft in self.structs[nm]])
         if nm in self.generics and not t.args:
             return TAbs(nm, self.generics[nm])
         if nm in self.aliases and not t.args:
@@ -900,18 +1016,24 @@ class FnTranslator:
         # shadowing: allowed in the same scope (old binding dead), refused across scopes inside nested blocks
         # (at the top level of the function body a `let` may shadow a parameter: the parameter is dead from there on)
         top_level = self.loop_depth == 0 and len(self.scopes) == 2
+        shadows = False
         for sc in self.scopes[:-1]:
             if name in sc and not nested_ok and not top_level:
+                if self.spec.get("shadow_fresh"):
+                    # (genukk) the inner variable gets a Lean name of its own (primed), the outer one stays reachable by its
+                    # name when the block ends (look-up goes through the scope stack by Rust name)
+                    shadows = True
+                    break
                 self.err("`%s` shadows a variable of an enclosing block (not translated)" % name, node)
-        v = Var(name, self.fresh_lean(name), ty, mutable, ref_elem)
+        v = Var(name, self.fresh_lean(name, shadows), ty, mutable, ref_elem)
         self.scopes[-1][name] = v
         return v
 
-    def fresh_lean(self, name):
+    def fresh_lean(self, name, avoid_same=False):
         """Lean name for the Rust variable `name`: its own name, primed while another live variable (e.g. the field
         `self.mask` next to a local `mask`) already uses it"""
         lean = lean_name(name)
-        live = set(v.lean for sc in self.scopes for k, v in sc.items() if k != name)
+        live = set(v.lean for sc in self.scopes for k, v in sc.items() if k != name or avoid_same) | set(self.width_params())
         while lean in live:
             lean += "'"
         return lean
@@ -951,7 +1073,10 @@ class FnTranslator:
                         d.add(nm)
             if n.tail is not None:
                 self._assigned(n.tail, d, out)
+        elif k == "let":
+            self._expr_calls_assigned(n.init, decl, out)
         elif k == "assign":
+            self._expr_calls_assigned(n.rhs, decl, out)
             r = self._lhs_root(n.lhs)
             if n.lhs.kind == "un" and n.lhs.op == "*":
                 # `*r = e` where r is an iter_mut loop variable: the write goes to the sequence, handled by the loop
@@ -960,7 +1085,15 @@ class FnTranslator:
                 out.append(r)
         elif k == "exprs":
             e = n.e
-            if e.kind == "mcall" and e.name in ("push",):
+            ckey = None
+            if e.kind == "mcall" and method_key(e) in self.calls:
+                ckey = method_key(e)
+            elif e.kind == "call" and "::".join(e.path) in self.calls:
+                ckey = "::".join(e.path)
+            if ckey is not None:
+                # (genukk) a call that receives `&mut S` arguments assigns the fields of those structs
+                self._call_assigned(ckey, e.args, decl, out)
+            elif e.kind == "mcall" and e.name in SEQ_MUTATORS:
                 r = self._lhs_root(e.recv)
                 if r not in decl and r not in out:
                     out.append(r)
@@ -985,6 +1118,12 @@ class FnTranslator:
             if r not in decl and r not in out:
                 out.append(r)
             self._assigned(n.body, set(decl) | set(pat_names(n.pat)), out)
+        elif k == "for" and zip_mut_parts(n.iter) is not None:
+            # (genukk) `for (x, y) in xs.iter_mut().zip(ys)`: the sequence `xs` is rebuilt
+            r = self._lhs_root(zip_mut_parts(n.iter)[0])
+            if r not in decl and r not in out:
+                out.append(r)
+            self._assigned(n.body, set(decl) | set(pat_names(n.pat)), out)
         elif k == "for":
             d = set(decl) | set(pat_names(n.pat))
             inner = []
@@ -998,6 +1137,26 @@ class FnTranslator:
                 if r not in decl and r not in out:
                     out.append(r)
         # expressions do not assign (no nested blocks except `if` expressions, handled above)
+
+    def _call_assigned(self, ckey, args, decl, out):
+        """(genukk) what a call of the translated function `ckey` assigns: `self_outs`, and the `&mut S` arguments"""
+        f = self.calls[ckey]
+        names = ["self." + a for a in f.get("self_outs", [])]
+        for a, at in zip(args, f["args"]):
+            sname = self.struct_of(at)
+            if sname is not None and at.replace(" ", "").startswith("&mut"):
+                names += self.struct_arg_names(a, sname)
+        for nm in names:
+            if nm not in decl and nm.split(".")[0] not in decl and nm not in out:
+                out.append(nm)
+
+    def _expr_calls_assigned(self, e, decl, out):
+        """(genukk) calls with `&mut` effects inside an expression (`carry = advance_block(state, ..)`)"""
+        for x in all_nodes(e):
+            if x.kind == "mcall" and method_key(x) in self.calls:
+                self._call_assigned(method_key(x), x.args, decl, out)
+            elif x.kind == "call" and "::".join(x.path) in self.calls:
+                self._call_assigned("::".join(x.path), x.args, decl, out)
 
     def reads(self, node):
         """rust names read anywhere in `node`"""
@@ -1018,11 +1177,25 @@ class FnTranslator:
                 nm = self_path(n)
                 if nm not in out:
                     out.append(nm)
-            elif n.kind == "mcall" and method_key(n) is not None and method_key(n) in self.calls:
-                for a in self.calls[method_key(n)].get("self_args", []):
+            elif (n.kind == "mcall" and method_key(n) is not None and method_key(n) in self.calls) or \
+                    (n.kind == "call" and "::".join(n.path) in self.calls):
+                f = self.calls[method_key(n) if n.kind == "mcall" else "::".join(n.path)]
+                for a in f.get("self_args", []):
                     if "self." + a not in out:
                         out.append("self." + a)
-                self._reads(n.args, out)
+                for a in f.get("recv_args", []):
+                    if a not in out:
+                        out.append(a)
+                for a, at in zip(n.args, f["args"]):
+                    sname = self.struct_of(at)
+                    if sname is not None:
+                        # (genukk) a struct argument reads the variables that hold its fields
+                        for nm in self.struct_arg_names(a, sname):
+                            if nm not in out:
+                                out.append(nm)
+                        self._reads(a, out)
+                    else:
+                        self._reads(a, out)
             elif n.kind == "match":
                 self._reads(n.scrut, out)
                 for _, b, _ in n.arms:
@@ -1056,6 +1229,10 @@ class FnTranslator:
             return self.expr(e.e, code, expected)
         if k == "lit":
             t = self.lit_type(e, expected)
+            if isinstance(t, TWord):
+                if e.v not in (0, 1):
+                    self.err("literal %d of the generic word type %s (only 0 and 1 fit every width)" % (e.v, t.name), e)
+                return str(e.v), t
             lo, hi = (-(2 ** (t.w - 1)), 2 ** (t.w - 1) - 1) if t.signed else (0, 2 ** t.w - 1)
             if not (lo <= e.v <= hi):
                 self.err("literal %d does not fit %s" % (e.v, t.name), e)
@@ -1076,6 +1253,11 @@ class FnTranslator:
             if self_path(e) is not None:
                 v = self.lookup(self_path(e), e)
                 return v.lean, v.ty
+            if e.e.kind in ("index", "var", "paren"):
+                # (genukk) `v[i].dist`, `peq[i].peq`: projection of a struct value
+                b, bt = self.expr(e.e, code)
+                if isinstance(bt, TStruct) and e.name in bt.fields:
+                    return "%s%s" % (atom(b), bt.proj(e.name)), bt.items[bt.fields.index(e.name)]
             self.err("field access `.%s` on something other than `self`" % e.name, e)
         if k == "index":
             if e.idx.kind == "range":
@@ -1092,13 +1274,19 @@ class FnTranslator:
         if k == "cast":
             target = self.ty(e.ty)
             s, st = self.expr(e.e, code, None if not self.is_lit(e.e) else target)
+            if isinstance(st, TBool) and isinstance(target, TInt) and not isinstance(target, TWord) and self.signed_arith:
+                return "Rs.ofBool %s" % atom(s), target           # (genukk) `cond as i8`: 0 / 1
             if not (isinstance(st, TInt) and isinstance(target, TInt)):
                 self.err("cast `as %r` from %r" % (target, st), e)
+            if isinstance(st, TWord) or isinstance(target, TWord):
+                self.err("cast between %r and %r (a generic word type)" % (st, target), e)
+            if st.signed and target.w > st.w and self.signed_arith:
+                return "Rs.sext %d %d %s" % (st.w, target.w, atom(s)), target     # (genukk) sign extension of the bit pattern
             if st.signed and target.w > st.w:
                 self.err("sign-extending cast %r as %r" % (st, target), e)
             if target.w >= st.w:
                 return s, target               # widening of an unsigned value / same-width reinterpretation of the bit pattern
-            return "Rs.cast %d %s" % (target.w, atom(s)), target
+            return "Rs.cast %s %s" % (target.w, atom(s)), target
         if k == "un":
             if e.op in ("&", "&mut"):
                 return self.expr(e.e, code, expected)
@@ -1114,15 +1302,21 @@ class FnTranslator:
                 if isinstance(t, TBool):
                     return "!" + atom(s), t
                 if isinstance(t, TInt) and not t.signed:
-                    return "Rs.not %d %s" % (t.w, atom(s)), t
+                    return "Rs.not %s %s" % (t.w, atom(s)), t
                 self.err("`!` on %r" % (t,), e)
             if e.op == "-":
                 s, t = self.expr(e.e, code, expected)
                 if isinstance(t, TInt) and t.signed:
                     r = self.tmp()
-                    code.bind(r, ("call", "Rs.neg %d %s" % (t.w, atom(s))))
+                    code.bind(r, ("call", "Rs.neg %s %s" % (t.w, atom(s))))
                     return r, t
                 self.err("unary `-` on %r (only signed bit patterns)" % (t,), e)
+        if k == "wordsize":
+            if e.targ in self.word_types:
+                return self.word_types[e.targ], TInt("usize")
+            if e.targ in WIDTH:
+                return str(WIDTH[e.targ]), TInt("usize")
+            self.err("`word_size::<%s>()` of a type the spec does not know" % e.targ, e)
         if k == "bin":
             return self.binary(e, code, expected)
         if k == "mcall":
@@ -1144,7 +1338,8 @@ class FnTranslator:
             if want is not None and any(isinstance(w, tuple) for w in want):
                 # typed field list (genpm): [(name, type)]; a field initialised with `self` (a reference to the receiver,
                 # whose fields are parameters of the translated functions anyway) is dropped
-                fields = [(f, x) for f, x in e.fields if not (x.kind == "var" and x.name == "self")]
+                fields = [(f, x) for f, x in e.fields
+                          if not (x.kind == "var" and (x.name == "self" or x.name in STRUCT_ROOTS))]
                 if [f for f, _ in fields] != [w[0] for w in want]:
                     self.err("struct literal `%s` has fields %s, the spec (and the theorems) expect %s in this order"
                              % (e.name, ",".join(f for f, _ in fields), ",".join(w[0] for w in want)), e)
@@ -1207,7 +1402,11 @@ class FnTranslator:
                 r, rt = self.expr(e.r, code, lt)
             if lt != rt:
                 self.err("comparison of %r with %r" % (lt, rt), e)
-            if isinstance(lt, TInt) and lt.signed:
+            if isinstance(lt, TInt) and lt.signed and self.signed_arith and op in ("<", ">", "<=", ">="):
+                # (genukk) comparison of signed values through their integer value
+                return "decide (Rs.toInt %d %s %s Rs.toInt %d %s)" % (
+                    lt.w, atom(l), {"<": "<", ">": ">", "<=": "≤", ">=": "≥"}[op], lt.w, atom(r)), TBool()
+            if isinstance(lt, TInt) and lt.signed and not (self.signed_arith and op in ("==", "!=")):
                 self.err("comparison of signed values (only bit operations are translated on signed types)", e)
             if op in ("==", "!="):
                 if not isinstance(lt, (TInt, TBool, TSeq)):
@@ -1223,7 +1422,7 @@ class FnTranslator:
             if not (isinstance(lt, TInt) and isinstance(rt, TInt)) or lt.signed or rt.signed:
                 self.err("shift on %r by %r" % (lt, rt), e)
             t = self.tmp()
-            code.bind(t, ("call", "Rs.%s %d %s %s" % ("shl" if op == "<<" else "shr", lt.w, atom(l), atom(r))))
+            code.bind(t, ("call", "Rs.%s %s %s %s" % ("shl" if op == "<<" else "shr", lt.w, atom(l), atom(r))))
             return t, lt
         if self.is_lit(e.l) and not self.is_lit(e.r):
             r0 = Code()
@@ -1238,17 +1437,22 @@ class FnTranslator:
             self.err("`%s` on %r and %r" % (op, lt, rt), e)
         if op in ("&", "|", "^"):
             return "%s %s %s" % (atom(l), {"&": "&&&", "|": "|||", "^": "^^^"}[op], atom(r)), lt
+        if lt.signed and self.signed_arith and op in ("+", "-"):
+            # (genukk) checked signed addition / subtraction on two's-complement bit patterns
+            t = self.tmp()
+            code.bind(t, ("call", "Rs.%s %d %s %s" % ("addI" if op == "+" else "subI", lt.w, atom(l), atom(r))))
+            return t, lt
         if lt.signed:
             self.err("arithmetic `%s` on the signed type %r (only bit operations are translated on signed types)" % (op, lt), e)
         if op in ("/", "%") and self.is_lit(e.r) and int(r) != 0:
             return "%s %s %s" % (atom(l), op, r), lt
         t = self.tmp()
         if op == "+":
-            code.bind(t, ("call", "Rs.add %d %s %s" % (lt.w, atom(l), atom(r))))
+            code.bind(t, ("call", "Rs.add %s %s %s" % (lt.w, atom(l), atom(r))))
         elif op == "-":
             code.bind(t, ("call", "Rs.sub %s %s" % (atom(l), atom(r))))
         elif op == "*":
-            code.bind(t, ("call", "Rs.mul %d %s %s" % (lt.w, atom(l), atom(r))))
+            code.bind(t, ("call", "Rs.mul %s %s %s" % (lt.w, atom(l), atom(r))))
         elif op == "/":
             code.bind(t, ("call", "Rs.div %s %s" % (atom(l), atom(r))))
         elif op == "%":
@@ -1272,6 +1476,8 @@ class FnTranslator:
             # `self.kmp.delta(q, a)`: a translated method of a struct reachable from `self`; the fields of that struct
             # it reads (`self_args` in the spec) are passed first (genpm)
             f = self.calls[mkey]
+            if any(self.struct_of(a) is not None for a in f["args"]) or f.get("recv_args") or f.get("extra"):
+                return self.struct_call(mkey, f, e.args, code, e)
             if len(f["args"]) != len(e.args):
                 self.err("`%s` called with %d arguments, the spec says %d" % (mkey, len(e.args), len(f["args"])), e)
             parts = [self.lookup("self." + a, e).lean for a in f.get("self_args", [])]
@@ -1284,6 +1490,55 @@ class FnTranslator:
             t = self.tmp()
             code.bind(t, ("call", f["lean"] + "".join(" " + p for p in parts)))
             return t, self.ty_of_text(f["ret"])
+        if nm == "unwrap" and not e.args and e.recv.kind == "mcall" and e.recv.name in ("to_usize", "to_u64") and not e.recv.args:
+            # (genukk) `x.to_usize().unwrap()` (num_traits::ToPrimitive): the value if it fits, else `None` → panic
+            s_, t_ = self.expr(e.recv.recv, code)
+            if not isinstance(t_, TInt) or t_.signed:
+                self.err("`.%s()` on %r" % (e.recv.name, t_), e)
+            t = self.tmp()
+            code.bind(t, ("call", "Rs.cvt 64 %s" % atom(s_)))
+            return t, TInt("usize" if e.recv.name == "to_usize" else "u64")
+        if nm == "unwrap" and not e.args and e.recv.kind == "call" and e.recv.path[-1] in ("from_usize", "from_u64") \
+                and len(e.recv.args) == 1 and self.type_of_path(e.recv.path[:-1]) is not None:
+            # (genukk) `D::from_usize(x).unwrap()` (num_traits::FromPrimitive)
+            target = self.type_of_path(e.recv.path[:-1])
+            src_t = TInt("usize" if e.recv.path[-1] == "from_usize" else "u64")
+            s_, t_ = self.expr(e.recv.args[0], code, src_t)
+            if t_ != src_t:
+                self.err("`%s` of %r" % (e.recv.path[-1], t_), e)
+            t = self.tmp()
+            code.bind(t, ("call", "Rs.cvt %s %s" % (target.w, atom(s_))))
+            return t, target
+        if nm == "unwrap_or" and len(e.args) == 1 and e.recv.kind == "mcall" and e.recv.name == "map" \
+                and len(e.recv.args) == 1 and e.recv.args[0].kind == "projclosure" \
+                and e.recv.recv.kind == "mcall" and e.recv.recv.name == "last" and not e.recv.recv.args:
+            # (genukk) `v.last().map(|s| s.f).unwrap_or(d)` on a vector of structs
+            r, t = self.expr(e.recv.recv.recv, code)
+            fld = e.recv.args[0].field
+            if not (isinstance(t, TSeq) and isinstance(t.elem, TStruct) and fld in t.elem.fields):
+                self.err("`.last().map(|s| s.%s)` on %r" % (fld, t), e)
+            ft = t.elem.items[t.elem.fields.index(fld)]
+            d, dt = self.expr(e.args[0], code, ft)
+            if dt != ft:
+                self.err("`.unwrap_or(%r)` on an option of %r" % (dt, ft), e)
+            return "((%s.getLast?).map (fun s => s%s)).getD %s" % (atom(r), t.elem.proj(fld), atom(d)), ft
+        if nm == "map" and len(e.args) == 1 and e.args[0].kind == "projclosure" and e.recv.kind == "mcall" \
+                and e.recv.name == "get" and len(e.recv.args) == 1:
+            # (genukk) `v.get(i).map(|s| s.f)` on a vector of structs
+            r, t = self.expr(e.recv.recv, code)
+            fld = e.args[0].field
+            if not (isinstance(t, TSeq) and isinstance(t.elem, TStruct) and fld in t.elem.fields):
+                self.err("`.get(i).map(|s| s.%s)` on %r" % (fld, t), e)
+            i_, it_ = self.expr(e.recv.args[0], code, TInt("usize"))
+            if it_ != TInt("usize"):
+                self.err("`.get(%r)`" % (it_,), e)
+            return "(%s[%s]?).map (fun s => s%s)" % (atom(r), i_, t.elem.proj(fld)), TOption(t.elem.items[t.elem.fields.index(fld)])
+        if nm == "saturating_add" and len(e.args) == 1:
+            l, lt = self.expr(e.recv, code, expected)
+            r, rt = self.expr(e.args[0], code, lt)
+            if lt != rt or not isinstance(lt, TInt) or lt.signed:
+                self.err("`saturating_add` on %r and %r" % (lt, rt), e)
+            return "Rs.saturatingAdd %s %s %s" % (lt.w, atom(l), atom(r)), lt
         if nm == "len" and not e.args:
             r, t = self.expr(e.recv, code)
             if not isinstance(t, TSeq):
@@ -1302,12 +1557,12 @@ class FnTranslator:
             if lt != rt or not isinstance(lt, TInt) or lt.signed:
                 self.err("`%s` on %r and %r" % (nm, lt, rt), e)
             fn = {"wrapping_add": "wrappingAdd", "wrapping_sub": "wrappingSub", "wrapping_mul": "wrappingMul"}[nm]
-            return "Rs.%s %d %s %s" % (fn, lt.w, atom(l), atom(r)), lt
+            return "Rs.%s %s %s %s" % (fn, lt.w, atom(l), atom(r)), lt
         if nm == "wrapping_neg" and not e.args:
             l, lt = self.expr(e.recv, code, expected)
             if not isinstance(lt, TInt):
                 self.err("`wrapping_neg` on %r" % (lt,), e)
-            return "Rs.wrappingNeg %d %s" % (lt.w, atom(l)), lt
+            return "Rs.wrappingNeg %s %s" % (lt.w, atom(l)), lt
         if nm in ("borrow", "clone", "to_owned") and not e.args and nm == "borrow":
             return self.expr(e.recv, code, expected)
         if nm in ("into_iter", "iter") and not e.args:
@@ -1343,6 +1598,8 @@ class FnTranslator:
 
     def call(self, e, code, expected):
         path = "::".join(e.path)
+        if len(e.path) == 1 and e.path[0] in self.fn_aliases and not any(e.path[0] in sc for sc in self.scopes):
+            path = self.fn_aliases[e.path[0]]
         if e.path == ["Some"] and len(e.args) == 1:
             s, t = self.expr(e.args[0], code, expected.elem if isinstance(expected, TOption) else None)
             return "some " + atom(s), TOption(t)
@@ -1358,6 +1615,17 @@ class FnTranslator:
             if lt != rt or not isinstance(lt, TInt) or lt.signed:
                 self.err("`%s` on %r and %r" % (e.path[-1], lt, rt), e)
             return "Nat.%s %s %s" % (e.path[-1], atom(l), atom(r)), lt
+        if len(e.path) >= 2 and e.path[-1] in ("zero", "one", "max_value", "min_value") and not e.args \
+                and self.type_of_path(e.path[:-1]) is not None:
+            # (genukk) `T::zero()`, `T::one()`, `T::max_value()` of num_traits on an unsigned integer type
+            t = self.type_of_path(e.path[:-1])
+            if e.path[-1] in ("zero", "min_value"):
+                return "0", t
+            if e.path[-1] == "one":
+                return "1", t
+            return ("Rs.maxVal %s" % t.w if isinstance(t, TWord) else str(2 ** t.w - 1)), t
+        if path in self.calls and len(e.path) >= 2:
+            return self.struct_call(path, self.calls[path], e.args, code, e)
         if path in self.absfns:
             f = self.absfns[path]
             if len(f["args"]) != len(e.args):
@@ -1382,6 +1650,9 @@ class FnTranslator:
             if not isinstance(expected, TSeq):
                 self.err("`Vec::new()` without a declared element type", e)
             return "[]", expected
+        if len(e.path) == 1 and e.path[0] in self.calls and \
+                (any(self.struct_of(a) is not None for a in self.calls[e.path[0]]["args"]) or self.calls[e.path[0]].get("self_outs")):
+            return self.struct_call(e.path[0], self.calls[e.path[0]], e.args, code, e)       # (genukk)
         if len(e.path) == 1 and e.path[0] in self.calls:
             f = self.calls[e.path[0]]
             if len(f["args"]) != len(e.args):
@@ -1397,6 +1668,124 @@ class FnTranslator:
             code.bind(t, ("call", f["lean"] + "".join(" " + p for p in parts)))
             return t, self.ty_of_text(f["ret"])
         self.err("call of `%s` (not declared in the translation spec)" % path, e)
+
+    def type_of_path(self, path):
+        """(genukk) `T` / `T::DistType` / `usize` as the prefix of an associated-function path → the unsigned integer type"""
+        key = "::".join(path)
+        if key in self.type_paths:
+            return self.ty_of_text(self.type_paths[key])
+        if len(path) == 1 and path[0] in self.word_types:
+            return TWord(path[0], self.word_types[path[0]])
+        if len(path) == 1 and path[0] in WIDTH and path[0][0] == "u":
+            return TInt(path[0])
+        return None
+
+    def struct_fields_of(self, arg, sname, node):
+        """(genukk) the variables that hold the fields of the struct value `arg` (`state`, `&mut self.state`)"""
+        while arg.kind == "paren" or (arg.kind == "un" and arg.op in ("&", "&mut")):
+            arg = arg.e
+        if arg.kind == "var" and arg.name in STRUCT_ROOTS:
+            root = arg.name
+        elif arg.kind == "field" and self_path(arg) is not None:
+            root = self_path(arg)
+        else:
+            self.err("argument of struct type `%s` is not a parameter or a `self` field whose fields the spec lists" % sname, node)
+        return [self.lookup("%s.%s" % (root, f), node) for f, _ in self.structs[sname]]
+
+    def struct_arg_names(self, arg, sname):
+        """(genukk) rust names of the variables a `&mut S` argument modifies (no look-up: used by the assignment analysis)"""
+        while arg.kind == "paren" or (arg.kind == "un" and arg.op in ("&", "&mut")):
+            arg = arg.e
+        if arg.kind == "index":
+            return [self._lhs_root(arg.base)]
+        if arg.kind == "var" and arg.name not in STRUCT_ROOTS:
+            return [arg.name]
+        root = arg.name if arg.kind == "var" else self_path(arg)
+        if root is None:
+            return []
+        if any(root in sc for sc in self.scopes):
+            return [root]           # a variable that holds the whole struct value
+        return ["%s.%s" % (root, f) for f, _ in self.structs[sname]]
+
+    def struct_arg(self, arg, sname, mutable, code, node):
+        """(genukk) pass the struct value `arg` field by field.  Returns (lean texts of the fields, lean names that receive the
+        new field values after the call [if `mutable`], function(code) that stores them back).  `arg` is a parameter / `self`
+        field whose fields are variables, an element `v[i]` of a vector of structs, or a local variable of the struct type."""
+        while arg.kind == "paren" or (arg.kind == "un" and arg.op in ("&", "&mut")):
+            arg = arg.e
+        st = self.ty_of_text(sname)
+        n = len(st.fields)
+        if arg.kind == "index" and arg.base.kind in ("var", "field") and arg.idx.kind != "range":
+            v = self.lookup(self._lhs_root(arg.base), node)
+            if not (isinstance(v.ty, TSeq) and v.ty.elem == st):
+                self.err("`%s[..]` as an argument of struct type `%s`: it has type %r" % (v.rust, sname, v.ty), node)
+            i, it = self.expr(arg.idx, code, TInt("usize"))
+            if it != TInt("usize"):
+                self.err("index of type %r" % (it,), arg.idx)
+            if not re.fullmatch(r"[\w.']+", i):
+                ti = self.tmp()
+                code.let(ti, i)
+                i = ti
+            el = self.tmp()
+            code.bind(el, ("call", "Rs.idx %s %s" % (atom(v.lean), atom(i))))
+            ins = [self.tmp() for _ in range(n)]
+            code.let(tuple_pat(ins), el)
+            if not mutable:
+                return ins, [], None
+            outs = [self.tmp() for _ in range(n)]
+            return ins, outs, (lambda c: c.bind(v.lean, ("call", "Rs.setIdx %s %s %s" % (atom(v.lean), atom(i), tuple_val(outs)))))
+        if arg.kind == "var" and any(arg.name in sc for sc in self.scopes):
+            v = self.lookup(arg.name, node)
+            if v.ty != st:
+                self.err("`%s` as an argument of struct type `%s`: it has type %r" % (v.rust, sname, v.ty), node)
+            ins = [self.tmp() for _ in range(n)]
+            code.let(tuple_pat(ins), v.lean)
+            if not mutable:
+                return ins, [], None
+            outs = [self.tmp() for _ in range(n)]
+            return ins, outs, (lambda c: c.let(v.lean, tuple_val(outs)))
+        vs = self.struct_fields_of(arg, sname, node)
+        return [v.lean for v in vs], ([v.lean for v in vs] if mutable else []), None
+
+    def struct_call(self, key, f, args, code, node, as_stmt=False):
+        """(genukk) call of another translated function that takes struct arguments: a `&mut S` argument passes the fields of
+        the struct and gets all of them back (in field order, before the declared return value); `&S` passes the fields.
+        `self_outs`: `self` fields the callee (a `&mut self` method) assigns — it returns them first."""
+        if len(f["args"]) != len(args):
+            self.err("`%s` called with %d arguments, the spec says %d" % (key, len(args), len(f["args"])), node)
+        parts = list(f.get("extra", []))
+        parts += [self.lookup(a, node).lean for a in f.get("recv_args", [])]
+        parts += [self.lookup("self." + a, node).lean for a in f.get("self_args", [])]
+        outs = [self.lookup("self." + a, node).lean for a in f.get("self_outs", [])]
+        posts = []
+        for a, at in zip(args, f["args"]):
+            sname = self.struct_of(at)
+            if sname is not None:
+                ins, o, post = self.struct_arg(a, sname, at.replace(" ", "").startswith("&mut"), code, node)
+                parts += ins
+                outs += o
+                if post is not None:
+                    posts.append(post)
+                continue
+            want = self.ty_of_text(at)
+            s_, t_ = self.expr(a, code, want)
+            if t_ != want:
+                self.err("argument of `%s` has type %r, the spec says %r" % (key, t_, want), a)
+            parts.append(atom(s_))
+        ret = self.ty_of_text(f["ret"]) if f.get("ret") else None
+        call = f["lean"] + "".join(" " + p for p in parts)
+        if ret is None:
+            if not as_stmt:
+                self.err("`%s` returns no value" % key, node)
+            code.bind(tuple_pat(outs) if outs else "_", ("call", call))
+            for post in posts:
+                post(code)
+            return None, TUnit()
+        t = self.tmp() if not as_stmt else "_"
+        code.bind(tuple_pat(outs + [t]), ("call", call))
+        for post in posts:
+            post(code)
+        return t, ret
 
     def macro(self, e, code, expected):
         if e.name == "vec" and e.sep == ";" and len(e.args) == 2:
@@ -1456,6 +1845,8 @@ class FnTranslator:
             return self.if_stmt(s.e, code)
         if k in LOOP_KINDS and self.loop_is_x(s):
             return self.loop_x(s, code, None, None)
+        if k == "for" and zip_mut_parts(s.iter) is not None:
+            return self.for_zip_mut(s, code)
         if k == "for" and zip_parts(s.iter) is not None:
             return self.for_zip(s, code)
         if k == "while":
@@ -1498,6 +1889,13 @@ class FnTranslator:
                 self.let(N("let", s.pos, pat=p, ty=None, init=e), code)
             return
         name = s.pat.name
+        # (genukk) `let cost = &self.ukkonen.cost;`: a local name for a closure field the spec declares abstract
+        ini = s.init
+        while ini.kind == "paren" or (ini.kind == "un" and ini.op == "&"):
+            ini = ini.e
+        if ini.kind == "field" and self_path(ini) in self.absfns and s.ty is None:
+            self.fn_aliases[name] = self_path(ini)
+            return
         want = self.declared_type(name, s.ty, s)
         val, t = self.expr(s.init, code, want)
         if want is not None and t != want:
@@ -1530,6 +1928,38 @@ class FnTranslator:
             if t != v.ty:
                 self.err("assignment of %r to `%s` : %r" % (t, name, v.ty), s)
             code.let(v.lean, val)
+            return
+        if lhs.kind == "index" and lhs.base.kind == "index" and lhs.base.base.kind in ("var", "field") \
+                and lhs.idx.kind != "range" and lhs.base.idx.kind != "range":
+            # (genukk) `v[i][j] = e` / `v[i][j] op= e` on a vector of vectors: read row `i`, write cell `j`, write the row back
+            root = self._lhs_root(lhs.base.base)
+            v = self.lookup(root, lhs)
+            if not (isinstance(v.ty, TSeq) and isinstance(v.ty.elem, TSeq)):
+                self.err("nested element assignment into %r" % (v.ty,), s)
+            cell_ty = v.ty.elem.elem
+            if s.op is None:
+                val, t = self.expr(s.rhs, code, cell_ty)
+            row, _, wb = self.place(lhs.base, code)
+            j, jt = self.expr(lhs.idx, code, TInt("usize"))
+            if jt != TInt("usize"):
+                self.err("index of type %r" % (jt,), lhs.idx)
+            if not re.fullmatch(r"[\w.']+", j):
+                tj = self.tmp()
+                code.let(tj, j)
+                j = tj
+            if s.op is not None:
+                old = self.tmp()
+                code.bind(old, ("call", "Rs.idx %s %s" % (atom(row), atom(j))))
+                self.scopes.append({"%old": Var("%old", old, cell_ty)})
+                try:
+                    val, t = self.expr(N("bin", s.pos, op=s.op, l=N("var", s.pos, name="%old"), r=s.rhs), code, cell_ty)
+                finally:
+                    self.scopes.pop()
+            if t != cell_ty:
+                self.err("assignment of %r to a cell of `%s` : %r" % (t, root, v.ty), s)
+            row2 = self.tmp()
+            code.bind(row2, ("call", "Rs.setIdx %s %s %s" % (atom(row), atom(j), atom(val))))
+            wb(code, row2)
             return
         if lhs.kind == "index":
             root = self._lhs_root(lhs.base)
@@ -1564,7 +1994,108 @@ class FnTranslator:
             return
         self.err("assignment target", s)
 
+    def place(self, recv, code):
+        """(genukk) a `Vec` that is modified in place: a variable / `self.f`, or an element `v[i]` of a vector of vectors.
+        Returns (lean text of its current value, type, write-back function (code, new value))."""
+        while recv.kind == "paren" or (recv.kind == "un" and recv.op in ("&", "&mut")):
+            recv = recv.e
+        if recv.kind in ("var", "field"):
+            v = self.lookup(self._lhs_root(recv), recv)
+            return v.lean, v.ty, (lambda c, val: c.let(v.lean, val))
+        if recv.kind == "index" and recv.base.kind in ("var", "field") and recv.idx.kind != "range":
+            v = self.lookup(self._lhs_root(recv.base), recv)
+            if not (isinstance(v.ty, TSeq) and isinstance(v.ty.elem, TSeq)):
+                self.err("`v[i]` as a vector modified in place, where `v` has type %r" % (v.ty,), recv)
+            i, it = self.expr(recv.idx, code, TInt("usize"))
+            if it != TInt("usize"):
+                self.err("index of type %r" % (it,), recv.idx)
+            if not re.fullmatch(r"[\w.']+", i):
+                ti = self.tmp()
+                code.let(ti, i)
+                i = ti
+            row = self.tmp()
+            code.bind(row, ("call", "Rs.idx %s %s" % (atom(v.lean), atom(i))))
+            return row, v.ty.elem, (lambda c, val: c.bind(v.lean, ("call", "Rs.setIdx %s %s %s" % (atom(v.lean), atom(i), atom(val)))))
+        self.err("receiver of a modifying method is not a variable, `self.f` or an element `v[i]` of one", recv)
+
+    def seq_mutation(self, e, code):
+        """(genukk) `v.clear()`, `v.extend(repeat(x).take(n))`, `v.extend(a..b)`, `v.extend(a..=b)`, `v.resize(n, x)`,
+        `v.truncate(n)`, and `v[i].push(x)` — `v` as in `place`"""
+        nm = e.name
+        # arguments first (Rust evaluates the receiver place, then the arguments; only panics can be observed)
+        if nm == "clear" and not e.args:
+            cur, ty, wb = self.place(e.recv, code)
+            if not isinstance(ty, TSeq):
+                self.err("`.clear()` on %r" % (ty,), e)
+            wb(code, "([] : %s)" % ty.lean())
+            return
+        if nm == "push" and len(e.args) == 1:
+            cur, ty, wb = self.place(e.recv, code)
+            if not isinstance(ty, TSeq):
+                self.err("`.push` on %r" % (ty,), e)
+            val, t = self.expr(e.args[0], code, ty.elem)
+            if t != ty.elem:
+                self.err("`.push` of %r onto %r" % (t, ty), e)
+            wb(code, "%s ++ [%s]" % (atom(cur), val))
+            return
+        if nm == "extend" and len(e.args) == 1:
+            a = e.args[0]
+            while a.kind == "paren":
+                a = a.e
+            cur, ty, wb = self.place(e.recv, code)
+            if not isinstance(ty, TSeq):
+                self.err("`.extend` on %r" % (ty,), e)
+            if a.kind == "mcall" and a.name == "take" and len(a.args) == 1 and a.recv.kind == "call" \
+                    and a.recv.path[-1] == "repeat" and len(a.recv.args) == 1:
+                add, at = self.replicate(a.recv.args[0], a.args[0], code, ty, e)
+            elif a.kind == "range" and a.lo is not None and a.hi is not None:
+                if self.is_lit(a.lo) and not self.is_lit(a.hi):
+                    hi, ht = self.expr(a.hi, code, ty.elem)
+                    lo, lt = self.expr(a.lo, code, ht)
+                else:
+                    lo, lt = self.expr(a.lo, code, ty.elem)
+                    hi, ht = self.expr(a.hi, code, lt)
+                if lt != ht or not isinstance(lt, TInt) or lt.signed:
+                    self.err("range bounds of type %r and %r" % (lt, ht), e)
+                add = "List.range' %s (%s%s - %s)" % (atom(lo), atom(hi), " + 1" if a.incl else "", atom(lo))
+                at = TSeq(lt)
+            else:
+                self.err("`.extend(…)` of something other than `repeat(x).take(n)` or a range", e)
+            if at != ty:
+                self.err("`.extend` of %r onto %r" % (at, ty), e)
+            wb(code, "%s ++ %s" % (atom(cur), add))
+            return
+        if nm == "resize" and len(e.args) == 2:
+            cur, ty, wb = self.place(e.recv, code)
+            if not isinstance(ty, TSeq):
+                self.err("`.resize` on %r" % (ty,), e)
+            n, nt = self.expr(e.args[0], code, TInt("usize"))
+            x, xt = self.expr(e.args[1], code, ty.elem)
+            if nt != TInt("usize") or xt != ty.elem:
+                self.err("`.resize(%r, %r)` on %r" % (nt, xt, ty), e)
+            wb(code, "Rs.resize %s %s %s" % (atom(cur), atom(n), atom(x)))
+            return
+        if nm == "truncate" and len(e.args) == 1:
+            cur, ty, wb = self.place(e.recv, code)
+            if not isinstance(ty, TSeq):
+                self.err("`.truncate` on %r" % (ty,), e)
+            n, nt = self.expr(e.args[0], code, TInt("usize"))
+            if nt != TInt("usize"):
+                self.err("`.truncate(%r)`" % (nt,), e)
+            wb(code, "%s.take %s" % (atom(cur), atom(n)))
+            return
+        self.err("method `.%s(…)` as a statement is outside the translated subset" % nm, e)
+
     def expr_stmt(self, e, code):
+        if e.kind == "mcall" and method_key(e) in self.calls:
+            self.struct_call(method_key(e), self.calls[method_key(e)], e.args, code, e, as_stmt=True)     # (genukk)
+            return
+        if e.kind == "call" and "::".join(e.path) in self.calls:
+            self.struct_call("::".join(e.path), self.calls["::".join(e.path)], e.args, code, e, as_stmt=True)
+            return
+        if e.kind == "mcall" and (e.name in ("clear", "extend", "resize", "truncate")
+                                  or (e.name == "push" and e.recv.kind == "index")):
+            return self.seq_mutation(e, code)
         if e.kind == "macro" and e.name in ("assert", "debug_assert") and len(e.args) >= 1:
             c, t = self.expr(e.args[0], code, TBool())
             if not isinstance(t, TBool):
@@ -1657,7 +2188,8 @@ class FnTranslator:
 
     def helper_header(self, name, caps):
         params = "".join(" (%s : %s)" % (v.lean, v.ty.lean()) for v in caps)
-        absf = "".join(" (%s : %s)" % (f, self.abs_sig(f)) for f in self.absfn_params())
+        absf = "".join(" (%s : Nat)" % w for w in self.width_params()) + \
+            "".join(" (%s : %s)" % (f, self.abs_sig(f)) for f in self.absfn_params())
         return "def %s%s%s" % (name, absf, params)
 
     def absfn_params(self):
@@ -1673,7 +2205,7 @@ class FnTranslator:
         raise KeyError(lean)
 
     def abs_args(self):
-        return "".join(" " + f for f in self.absfn_params())
+        return "".join(" " + w for w in self.width_params()) + "".join(" " + f for f in self.absfn_params())
 
     def while_(self, s, code):
         self.n_while += 1
@@ -1912,6 +2444,53 @@ class FnTranslator:
         code.bind(tuple_pat([v.lean for v in state]),
                   ("call", "(List.zip %s %s).foldlM %s %s" % (atom(l), atom(r), atom(name + self.abs_args() + "".join(" " + v.lean for v in caps)),
                                                             tuple_val([v.lean for v in state]))))
+
+    def for_zip_mut(self, s, code):
+        """(genukk) `for (x, y) in xs.iter_mut().zip(ys)`: `List.foldlM` over `List.zip xs ys` of a named body function whose
+        state also rebuilds the prefix of `xs` element by element; the elements of `xs` beyond `ys.len()` stay as they are"""
+        self.n_for += 1
+        name = "%s_for%d" % (self.lean_fn, self.n_for)
+        xe, ye = zip_mut_parts(s.iter)
+        seq_var = self.lookup(self._lhs_root(xe), s)
+        if xe.kind not in ("var", "field") or not isinstance(seq_var.ty, TSeq):
+            self.err("`iter_mut().zip(..)` over something other than a vector variable", s)
+        ys, yt = self.expr(ye, code)
+        if not isinstance(yt, TSeq):
+            self.err("`.zip` with %r" % (yt,), s)
+        if s.pat.kind != "ptuple" or len(s.pat.items) != 2 or any(p.kind != "pid" for p in s.pat.items):
+            self.err("pattern of a `.zip()` loop must be `(a, b)`", s.pat)
+        loopvars = [(s.pat.items[0].name, seq_var.ty.elem), (s.pat.items[1].name, yt.elem)]
+        assigned = [a for a in self.assigned(N("for", s.pos, pat=s.pat, iter=s.iter, body=s.body)) if a != seq_var.rust]
+        if seq_var.rust in self.reads(s.body):
+            self.err("the body of an `iter_mut()` loop reads the sequence itself", s)
+        state = self.outer_vars(assigned, s)
+        caps = self.captured(s.body, [v.rust for v in state], [lv[0] for lv in loopvars])
+        saved_scopes, saved_tail = self.scopes, self.tail_expected
+        self.tail_expected = None
+        self.scopes = [dict((v.rust, Var(v.rust, v.lean, v.ty)) for v in caps + state)]
+        lvs = [self.declare(nm, t, s, mutable=(k == 0), nested_ok=True) for k, (nm, t) in enumerate(loopvars)]
+        acc = self.fresh_lean(seq_var.lean + "'")
+        self.loop_depth += 1
+        try:
+            body = Code()
+            self.block(self.unit_block(s.body), body, False)
+            body.final = ("pure", tuple_val([v.lean for v in state] + ["%s ++ [%s]" % (acc, self.lookup(loopvars[0][0], s).lean)]))
+        finally:
+            self.scopes, self.tail_expected = saved_scopes, saved_tail
+            self.loop_depth -= 1
+        st_ty = tuple_ty([v.ty for v in state] + [seq_var.ty])
+        el_ty = tuple_ty([v.ty for v in lvs])
+        lines = ["/-- body of `for %s` (line %d) -/" % (self.src_text(s, None)[4:].strip(), self.src.line_of(s.pos)),
+                 "%s : %s → %s → Res %s" % (self.helper_header(name, caps), paren_ty(st_ty), paren_ty(el_ty), paren_ty(st_ty)),
+                 "  | %s, %s => do" % (tuple_pat([v.lean for v in state] + [acc]), tuple_pat([v.lean for v in lvs]))]
+        emit_code(body, 4, lines)
+        self.helpers.append("\n".join(lines))
+        t = self.tmp()
+        code.bind(tuple_pat([v.lean for v in state] + [t]),
+                  ("call", "(List.zip %s %s).foldlM %s %s" % (atom(seq_var.lean), atom(ys),
+                                                            atom(name + self.abs_args() + "".join(" " + v.lean for v in caps)),
+                                                            tuple_val([v.lean for v in state] + ["[]"]))))
+        code.let(seq_var.lean, "%s ++ %s.drop %s.length" % (t, atom(seq_var.lean), atom(ys)))
 
     # ================================================================ control flow with exits (genpm)
     # `loop`, `break`, `return` inside loops, `match` on `Option`, `for pat in it.by_ref()` over an iterator state.
@@ -2198,8 +2777,27 @@ class FnTranslator:
             v = Var("self." + nm, lean_name(nm), t)
             self.scopes[0]["self." + nm] = v
             params.append(v)
+        struct_mut = []      # (genukk) fields of `&mut S` parameters: always returned, assigned or not
+        n_unused = 0
         for nm, ty in sp["params"]:
+            sname = self.struct_of(ty)
+            if sname is not None:
+                # (genukk) a parameter of a struct type is passed field by field (`state.pv` → `pv`)
+                for fnm, fty in self.structs[sname]:
+                    key = "%s.%s" % (nm, fnm)
+                    v = Var(key, self.fresh_lean(fnm), self.ty_of_text(fty))
+                    self.scopes[0][key] = v
+                    params.append(v)
+                    if ty.replace(" ", "").startswith("&mut"):
+                        struct_mut.append(key)
+                continue
             t = self.ty_of_text(ty)
+            if nm == "_":
+                n_unused += 1
+                v = Var("_%d" % n_unused, "unused%d" % n_unused, t)
+                self.scopes[0]["_%d" % n_unused] = v
+                params.append(v)
+                continue
             v = Var(nm, self.fresh_lean(nm), t)
             self.scopes[0][nm] = v
             params.append(v)
@@ -2210,13 +2808,17 @@ class FnTranslator:
         # ... and so are `&mut` parameters the body writes to (after the fields, in parameter order)
         all_assigned = self.assigned(body)
         mut_params = [nm for nm, ty in sp["params"] if ty.replace(" ", "").startswith("&mut")]
-        assigned_self = [a for a in all_assigned if a.startswith("self.") or a in mut_params]
+        assigned_self = [a for a in all_assigned if a.startswith("self.") or a in mut_params] + struct_mut
         ret_fields = [v for v in params if v.rust in assigned_self]
         self.ret, self.ret_fields = ret, ret_fields
+        if isinstance(ret, TUnit) and body.tail is not None and body.tail.kind == "if":
+            # (genukk) a unit function whose body ends in `if .. {..} else {..}` without `;`: a statement
+            body = N("block", body.pos, stmts=body.stmts + [N("ifs", body.tail.pos, e=body.tail)], tail=None)
         self.scopes.append({})
         out_tys = self.seq(body.stmts, body.tail, code, body)
         self.scopes.pop()
-        absf = "".join(" (%s : %s)" % (f, self.abs_sig(f)) for f in self.absfn_params())
+        absf = "".join(" (%s : Nat)" % w for w in self.width_params()) + \
+            "".join(" (%s : %s)" % (f, self.abs_sig(f)) for f in self.absfn_params())
         sig = "def %s%s%s : Res %s :=" % (self.lean_fn, absf,
                                          "".join(" (%s : %s)" % (v.lean, v.ty.lean()) for v in params),
                                          paren_ty(tuple_ty(out_tys)))
@@ -2389,6 +2991,8 @@ def self_path(e):
         e = e.e
     if e.kind == "var" and e.name == "self" and parts:
         return "self." + ".".join(reversed(parts))
+    if e.kind == "var" and e.name in STRUCT_ROOTS and parts:
+        return e.name + "." + ".".join(reversed(parts))      # (genukk) `state.pv` on a parameter of a struct type
     return None
 
 
@@ -2406,11 +3010,28 @@ def zip_parts(it):
     return strip(it.recv), strip(it.args[0])
 
 
+def zip_mut_parts(it):
+    """(genukk) `xs.iter_mut().zip(ys)` → (xs, ys) expressions, else None"""
+    while it.kind == "paren":
+        it = it.e
+    if not (it.kind == "mcall" and it.name == "zip" and len(it.args) == 1):
+        return None
+    r = it.recv
+    if not (r.kind == "mcall" and r.name == "iter_mut" and not r.args):
+        return None
+    y = it.args[0]
+    while y.kind == "paren" or (y.kind == "un" and y.op == "&") or (y.kind == "mcall" and y.name in ("iter", "into_iter") and not y.args):
+        y = y.e if y.kind in ("paren", "un") else y.recv
+    return r.recv, y
+
+
 def method_key(e):
     """key of a method call on `self` or on a struct reachable from it: `self.kmp.delta(..)` → "self.kmp.delta" (genpm)"""
     r = e.recv
     if r.kind == "var" and r.name == "self":
         return "self." + e.name
+    if r.kind == "var" and r.name in STRUCT_ROOTS:
+        return r.name + "." + e.name
     if r.kind == "field" and self_path(r) is not None:
         return self_path(r) + "." + e.name
     return None
@@ -2441,6 +3062,9 @@ def contains_kind(n, kinds, stop=()):
 
 
 LOOP_KINDS = ("while", "loop", "for")
+STRUCT_ROOTS = set()      # (genukk) parameters of a struct type of the function being translated (set by FnTranslator)
+# (genukk) methods that modify the `Vec` they are called on (the receiver may be an element `v[i]` of a vector of vectors)
+SEQ_MUTATORS = ("push", "clear", "extend", "resize", "truncate")
 
 
 def lean_name(rust):
@@ -2476,6 +3100,26 @@ def translate_unit(src, unit, fail):
         if f.get("toplevel"):
             rx = r"(?m)^" + rx          # the item at column 0 (a function of the same name inside a nested `mod` is another one) (genpm)
         ms = list(re.finditer(rx, src.code))
+        if f.get("within"):
+            # (genukk, as in rs2lean_fm.py) the function is looked for inside the single item (an `impl` block) with this header
+            ws = list(re.finditer(header_regex(f["within"]), src.code))
+            if len(ws) != 1:
+                fail("%s: %s: expected exactly one item `%s`, found %d" % (rel, what, f["within"][:100], len(ws)))
+            lo = ws[0].end() - 1
+            depth, hi = 0, None
+            for i in range(lo, len(src.code)):
+                if src.code[i] == "{":
+                    depth += 1
+                elif src.code[i] == "}":
+                    depth -= 1
+                    if depth == 0:
+                        hi = i
+                        break
+            ms = [m for m in ms if hi is not None and lo < m.start() < hi]
+            if len(ms) == 1:
+                rx = "(?s)(?<=^.{%d})" % ms[0].start() + rx      # the same header, at this position only
+                if len(list(re.finditer(rx, src.code))) != 1:
+                    fail("%s: %s: internal: cannot pin the header inside `%s`" % (rel, what, f["within"][:60]))
         if len(ms) != 1:
             fail("%s: %s: expected exactly one function with the header `%s`, found %d (signature changed, renamed or "
                  "restructured: the translation spec in tools/rs2lean.py pins the header)" % (rel, what, f["header"], len(ms)))
@@ -2737,6 +3381,129 @@ unit(name="SrcHamming", props="property C09", file="src/alignment/distance.rs",
                      toplevel=True,        # `simd::hamming` in the same file has the same header
                      params=[("alpha", "TextSlice"), ("beta", "TextSlice")], ret="u64", locals={"dist": "u64"},
                      theorem="RbV.Thm.GenSrcHamming.hamming_eq_model")])
+
+
+# ---- genukk: the approximate matchers (C09/C10) --------------------------------------------------------------------
+# `Ukkonen<F>`: the two DP columns `D: [Vec<usize>; 2]` are a list of two lists (the length 2 of the array type is a
+# hypothesis `D.length = 2` of the theorems); the user's cost closure `self.cost: F where F: Fn(u8, u8) -> u32` is the
+# abstract pure function `cost`.
+
+UKK_COST = {"self.ukkonen.cost": dict(lean="cost", args=["u8", "u8"], ret="u32")}
+
+unit(name="SrcUkkonen", props="property C09", file="src/pattern_matching/ukkonen.rs",
+     imports=["RbV.Basic.RsSemBits", "RbV.Basic.RsSemWord"], aliases={"TextSlice": "&[u8]"},
+     functions=[dict(name="Ukkonen::find_all_end", lean="findAllEnd",
+                     header="pub fn find_all_end<'a, C, T>(&'a mut self, pattern: TextSlice<'a>, text: T, k: usize,) "
+                            "-> Matches<'_, F, C, T::IntoIter> where C: Borrow<u8>, T: IntoIterator<Item = C>,",
+                     self_fields=[("D", "[Vec<usize>; 2]")],
+                     params=[("pattern", "TextSlice"), ("text", "&[u8]"), ("k", "usize")],
+                     ret="(TextSlice, Enumerate<u8>, usize, usize, usize)",
+                     struct_fields={"Matches": [("pattern", "TextSlice"), ("text", "Enumerate<u8>"), ("lastk", "usize"),
+                                                ("m", "usize"), ("k", "usize")]},
+                     shadow_fresh=True,
+                     theorem="RbV.Thm.GenSrcUkkonen.findAllEnd_init"),
+                dict(name="Matches::next", lean="next", header="fn next(&mut self) -> Option<(usize, usize)>",
+                     self_fields=[("ukkonen.D", "[Vec<usize>; 2]"), ("pattern", "TextSlice"), ("text", "Enumerate<u8>"),
+                                  ("lastk", "usize"), ("m", "usize"), ("k", "usize")],
+                     abstract_fns=UKK_COST,
+                     # `while D[col][lastk] > k { lastk -= 1 }`: `lastk` strictly decreases (and stops at cell 0, which is 0)
+                     fuel=["lastk + 1"], shadow_fresh=True,
+                     params=[], ret="Option<(usize, usize)>", theorem="RbV.Thm.GenSrcUkkonen.next_eq_model")])
+
+
+# `Myers<T: BitVec>` (single word): the generic word type `T` is a `Nat` below `2^w` with `w` a parameter of every generated
+# function (`Rs.wrappingAdd w`, `Rs.not w`, `Rs.shl w`, `Rs.maxVal w`); `T::DistType` likewise with width `wd`.  A `State<T, D>`
+# is passed field by field (`pv`, `mv`, `dist`).  Semantics of the signed `i8` step of the `dist` update: RsSemWord.lean.
+MYERS_WORDS = {"T": "w", "D": "wd", "DistType": "wd"}
+MYERS_PATHS = {"T::DistType": "DistType", "D": "D", "T": "T"}
+MYERS_STRUCTS = {"State": [("pv", "T"), ("mv", "T"), ("dist", "DistType")],
+                 "Myers": [("peq", "[T; 256]"), ("bound", "T"), ("m", "DistType")]}
+
+unit(name="SrcMyersState", props="properties C09, C10", file="src/pattern_matching/myers/myers_impl.rs",
+     imports=["RbV.Basic.RsSemWord"], word_types=MYERS_WORDS, type_paths=MYERS_PATHS, structs=MYERS_STRUCTS,
+     functions=[dict(name="State::init", lean="init", header="pub fn init(m: D) -> Self",
+                     params=[("m", "D")], ret="State",
+                     struct_fields={"State": [("pv", "T"), ("mv", "T"), ("dist", "D")]},
+                     theorem="RbV.Thm.GenSrcMyersSimple.init_eq_model"),
+                dict(name="State::known_dist", lean="knownDist", header="pub fn known_dist(&self) -> Option<D>",
+                     self_fields=[("dist", "D")], params=[], ret="Option<D>",
+                     theorem="RbV.Thm.GenSrcMyersSimple.knownDist_eq")])
+
+unit(name="SrcMyersSimple", props="properties C09, C10", file="src/pattern_matching/myers/simple.rs",
+     imports=["RbV.Basic.RsSemWord", "RbV.Gen.SrcMyersState"], word_types=MYERS_WORDS, type_paths=MYERS_PATHS,
+     structs=MYERS_STRUCTS, signed_arith=True,
+     functions=[dict(name="Myers::_step", lean="step_", header="fn _step(&self, state: &mut State<T, T::DistType>, a: u8)",
+                     self_fields=[("peq", "[T; 256]"), ("bound", "T")],
+                     params=[("state", "&mut State"), ("a", "u8")], ret=None,
+                     theorem="RbV.Thm.GenSrcMyersSimple.step__eq_model"),
+                dict(name="Myers::step", lean="step",
+                     header="fn step(&self, state: &mut State<T, T::DistType>, a: u8, _: T::DistType)",
+                     self_fields=[("peq", "[T; 256]"), ("bound", "T")],
+                     params=[("state", "&mut State"), ("a", "u8"), ("_", "DistType")], ret=None,
+                     calls={"self._step": dict(lean="step_", extra=["w", "wd"], self_args=["peq", "bound"],
+                                               args=["&mut State", "u8"], ret=None)},
+                     theorem="RbV.Thm.GenSrcMyersSimple.step_eq_model"),
+                dict(name="Myers::initial_state", lean="initialState",
+                     header="fn initial_state(&self, m: T::DistType, _: T::DistType) -> State<T, T::DistType>",
+                     params=[("m", "DistType"), ("_", "DistType")], ret="State",
+                     calls={"State::init": dict(lean="RbV.Gen.SrcMyersState.init", extra=["w", "wd"], args=["DistType"], ret="State")},
+                     theorem="RbV.Thm.GenSrcMyersSimple.init_eq_model")])
+
+# `Matches::new` / `Matches::next` are written once, inside the macro `impl_myers!` of myers_impl.rs (`$DistType`, `$Myers`,
+# `$State` are its parameters); this unit reads them at the instance of simple.rs: `myers.step` / `myers.initial_state` are the
+# translated functions of `SrcMyersSimple`, `state.known_dist()` that of `SrcMyersState`.
+unit(name="SrcMyersMatches", props="properties C09, C10", file="src/pattern_matching/myers/myers_impl.rs",
+     imports=["RbV.Basic.RsSemWord", "RbV.Gen.SrcMyersState", "RbV.Gen.SrcMyersSimple"],
+     word_types=MYERS_WORDS, type_paths=MYERS_PATHS, structs=MYERS_STRUCTS,
+     functions=[dict(name="Matches::new", lean="new", header="fn new(myers: &'a Myers<T>, text: I, max_dist: $DistType) -> Self",
+                     within="impl<'a, T, C, I> Matches<'a, T, C, I> where T: BitVec, C: Borrow<u8>, I: Iterator<Item = C>,",
+                     params=[("myers", "&Myers"), ("text", "&[u8]"), ("max_dist", "DistType")],
+                     ret="(State, Enumerate<u8>, DistType)",
+                     struct_fields={"Matches": [("state", "State"), ("text", "Enumerate<u8>"), ("max_dist", "DistType")]},
+                     calls={"myers.initial_state": dict(lean="RbV.Gen.SrcMyersSimple.initialState", extra=["w", "wd"],
+                                                        args=["DistType", "DistType"], ret="State")},
+                     theorem="RbV.Thm.GenSrcMyersMatches.new_eq_model"),
+                dict(name="Matches::next", lean="next", header="fn next(&mut self) -> Option<(usize, $DistType)>",
+                     within="impl<'a, T, C, I> Iterator for Matches<'a, T, C, I> where T: BitVec, C: Borrow<u8>, I: Iterator<Item = C>,",
+                     self_fields=[("myers.peq", "[T; 256]"), ("myers.bound", "T"), ("state.pv", "T"), ("state.mv", "T"),
+                                  ("state.dist", "DistType"), ("text", "Enumerate<u8>"), ("max_dist", "DistType")],
+                     params=[], ret="Option<(usize, DistType)>",
+                     calls={"self.myers.step": dict(lean="RbV.Gen.SrcMyersSimple.step", extra=["w", "wd"],
+                                                    self_args=["myers.peq", "myers.bound"],
+                                                    args=["&mut State", "u8", "DistType"], ret=None),
+                            "self.state.known_dist": dict(lean="RbV.Gen.SrcMyersState.knownDist", extra=["w", "wd"],
+                                                          self_args=["state.dist"], args=[], ret="Option<DistType>")},
+                     theorem="RbV.Thm.GenSrcMyersMatches.next_eq_model")])
+
+
+# `long::Myers<T>` (block-based): a block is a `State<T, usize>` (`pv`, `mv`, `dist`), the per-block pattern data a `Peq<T>`
+# (`peq`, `bound`); the horizontal differences `hin` / `hout` between blocks are `i8` bit patterns (−1 = 255).
+MYERS_LONG_STRUCTS = {"State": [("pv", "T"), ("mv", "T"), ("dist", "usize")],
+                      "Peq": [("peq", "[T; 256]"), ("bound", "T")]}
+
+LONG_STATES = [("states", "Vec<State>"), ("max_block", "usize"), ("last_m", "usize")]
+
+unit(name="SrcMyersLong", props="properties C09, C10", file="src/pattern_matching/myers/long.rs",
+     imports=["RbV.Basic.RsSemWord", "RbV.Gen.SrcMyersState"], word_types={"T": "w"}, type_paths={"T": "T"}, structs=MYERS_LONG_STRUCTS,
+     signed_arith=True,
+     functions=[dict(name="advance_block", lean="advanceBlock",
+                     header="fn advance_block<T: BitVec>(state: &mut State<T, usize>, p: &Peq<T>, a: u8, hin: i8) -> i8",
+                     params=[("state", "&mut State"), ("p", "&Peq"), ("a", "u8"), ("hin", "i8")], ret="i8",
+                     theorem="RbV.Thm.GenSrcMyersLong.advanceBlock_eq_model"),
+                # `States<T>`: the active blocks `states: Vec<State<T, usize>>` (a list of triples), `max_block`, `last_m`
+                dict(name="States::add_state", lean="addState", header="fn add_state(&mut self, offset: i8)",
+                     self_fields=LONG_STATES, params=[("offset", "i8")], ret=None,
+                     calls={"State::init": dict(lean="RbV.Gen.SrcMyersState.init", extra=["w", "64"], args=["usize"], ret="State")},
+                     theorem="RbV.Thm.GenSrcMyersLongStep.addState_eq_model"),
+                dict(name="States::step", lean="step", header="fn step(&mut self, a: u8, peq: &[Peq<T>], max_dist: usize)",
+                     self_fields=LONG_STATES, params=[("a", "u8"), ("peq", "&[Peq]"), ("max_dist", "usize")], ret=None,
+                     locals={"carry": "i8"},
+                     # `while last_block > 0 && states[last_block].dist >= max_dist + w { last_block -= 1 }`
+                     fuel=["last_block + 1"],
+                     calls={"advance_block": dict(lean="advanceBlock", extra=["w"], args=["&mut State", "&Peq", "u8", "i8"], ret="i8"),
+                            "self.add_state": dict(lean="addState", extra=["w"], self_args=["states", "max_block", "last_m"],
+                                                   self_outs=["states"], args=["i8"], ret=None)},
+                     theorem="RbV.Thm.GenSrcMyersLongStep.step_eq_model")])
 
 
 # ================================================================================================== self-test
